@@ -229,7 +229,21 @@ func Verif_C19_DeleteThenEvict() {
 	if order == 2 {
 		set(b)
 	}
-	c05Run(s, "DEL", a)
+	// the key may lose its deadline before it is deleted (PERSIST, or a plain SET over it)
+	switch vr.Choose("before_delete", 3) {
+	case 1:
+		c05Run(s, "PERSIST", a)
+		vr.Quiesce()
+	case 2:
+		c05Run(s, "SET", a, "w")
+		vr.Quiesce()
+	}
+	switch vr.Choose("delete", 2) {
+	case 0:
+		c05Run(s, "DEL", a)
+	case 1:
+		c05Run(s, "GETDEL", a)
+	}
 	vr.Quiesce()
 	vr.Assert(s.memUsed == c19Fresh(s), "C19.evicting.delete_accounted")
 	// now everything has to go
@@ -243,7 +257,13 @@ func Verif_C19_DeleteThenEvict() {
 // Verif_C19_WriteOverExpired: a write over an entry whose deadline has passed but which is still
 // stored (nothing has read or swept it yet) replaces it: the figure is that of the new dataset,
 // and goes back to zero when the key is deleted.
-func Verif_C19_WriteOverExpired() {
+func Verif_C19_WriteOverExpired() { verifWriteOverExpired("C19") }
+
+// Verif_C08_WriteOverExpired: the same scenario under C08 - the usage figure that admission and
+// eviction decisions are taken on is the size of what is stored, also after expired entries were overwritten.
+func Verif_C08_WriteOverExpired() { verifWriteOverExpired("C08") }
+
+func verifWriteOverExpired(tag string) {
 	s, _, nowMs := c04Server()
 	k := vr.Tok("k")
 	verifPreset(s, 0, k, c19Value("old", vr.Choose("old_kind", 3)))
@@ -264,8 +284,8 @@ func Verif_C19_WriteOverExpired() {
 		c05Run(s, "MSET", k, vr.Tok("w"), vr.Tok("k2"), "x")
 	}
 	vr.Quiesce()
-	vr.Assert(s.memUsed == c19Fresh(s), "C19.write_over_expired.figure_is_that_of_the_new_dataset")
+	vr.Assert(s.memUsed == c19Fresh(s), tag+".write_over_expired.figure_is_that_of_the_new_dataset")
 	s.Flush(-1)
-	vr.Assert(s.memUsed == 0, "C19.write_over_expired.empty_is_zero")
+	vr.Assert(s.memUsed == 0, tag+".write_over_expired.empty_is_zero")
 	vr.Reach("end")
 }
